@@ -698,7 +698,7 @@ Section Cases.
   Qed.
 
   Lemma case_Rc2_keep k (a b c : seg -> N) p' :
-    t_pc th = Rc2 s k -> p' = FrL s \/ p' = Idle ->
+    t_pc th = Rc2 s k -> p' = FrR s \/ p' = Idle ->
     Inv (NS (fun g => set_holder (set_blocks (set_flag g USE) (a g) (b g) (c g)) None) (os_list st) p').
   Proof.
     intros Epc Hp'.
@@ -895,6 +895,10 @@ Proof.
     destruct (g_live g =? 0); norm He.
     + apply case_Rc2_free with (th := th) (g := g) (k := k) (a := fun _ => 0) (b := fun _ => 0) (c := g_delayed); auto.
     + apply case_Rc2_keep with (th := th) (g := g) (k := k) (a := g_live) (b := fun _ => 0) (c := g_delayed); auto. destruct k; auto.
+  - (* FrR *)
+    destruct (nth_error (segs st) s) as [g|] eqn:Eg; [|discriminate]. norm He.
+    destruct (inv_owns _ _ _ s g HI Hth Eg ltac:(rewrite Epc; reflexivity)) as (Ht & Hf & _).
+    apply case_pc_only with (th := th) (s := s) (g := g); auto; pcs Epc.
   - (* FrL *)
     destruct (nth_error (segs st) s) as [g|] eqn:Eg; [|discriminate]. norm He.
     apply case_blocks with (th := th) (g := g) (a := fun g => g_live g - 1) (b := g_tfree) (c := g_delayed); auto. rewrite Epc. reflexivity.
@@ -1223,8 +1227,8 @@ Proof. vm_compute. repeat split; reflexivity. Qed.
 (* the adoption trace of a schedule: what a step log of the real code is compared with *)
 Example ex_trace_prefix :
   firstn 6 (adoption_trace ex_st0 ex_sched2) =
-  [(0%nat, LTid 0, 1%Z, 0%Z); (0%nat, LTid 0, 0%Z, 0%Z); (0%nat, LBit 0, 0%Z, 1%Z);
-   (0%nat, LTid 3, 1%Z, 0%Z); (0%nat, LTid 3, 0%Z, 0%Z); (0%nat, LBit 3, 0%Z, 1%Z)].
+  [(0%nat, LTidPlain 0, 1%Z, 0%Z); (0%nat, LTid 0, 0%Z, 0%Z); (0%nat, LBit 0, 0%Z, 1%Z);
+   (0%nat, LTidPlain 3, 1%Z, 0%Z); (0%nat, LTid 3, 0%Z, 0%Z); (0%nat, LBit 3, 0%Z, 1%Z)].
 Proof. vm_compute. reflexivity. Qed.
 
 (* a quiescent state with dead abandoned segments (arena and OS list), and one forced collect *)
